@@ -98,7 +98,138 @@ func varSize(v uint64) uint64 {
 	return 9
 }
 
+// ---- K lines: the same writers on a sink whose memory is not fresh ----
+//
+//	K <init> op;op;…     init: n = NewZeroCopySink(nil) | z = ZeroCopySink{} | d:<k>:<hex> = NewZeroCopySink(b[:k]), b dirty
+//	ops: w8 w16 w32 w64 wb wvu wvb wbytes (as in W lines), reset, backup:<n> (never beyond the start: caller contract)
+
+func dirty(r *hx.Rand, n int) []byte {
+	b := make([]byte, n)
+	switch r.Intn(4) {
+	case 0:
+		for i := range b {
+			b[i] = 0xff
+		}
+	case 1:
+		for i := range b {
+			b[i] = 1
+		}
+	case 2:
+		copy(b, r.Bytes(n))
+	default: // mostly non-zero random
+		for i := range b {
+			b[i] = byte(1 + r.Intn(255))
+		}
+	}
+	return b
+}
+
+func opSize(op string) int {
+	p := strings.SplitN(op, ":", 2)
+	switch p[0] {
+	case "w8", "wb":
+		return 1
+	case "w16":
+		return 2
+	case "w32":
+		return 4
+	case "w64":
+		return 8
+	case "wvu":
+		n, _ := strconv.ParseUint(p[1], 10, 64)
+		return int(varSize(n))
+	case "wvb":
+		d := hx.MustUnhex(p[1])
+		return int(varSize(uint64(len(d)))) + len(d)
+	case "wbytes":
+		return len(hx.MustUnhex(p[1]))
+	}
+	return 0
+}
+
+func genSinkWrite(r *hx.Rand, boolHeavy bool) string {
+	if boolHeavy && r.Chance(60) {
+		return "wb:" + hx.B(r.Chance(30))
+	}
+	if r.Chance(15) { // small / zero values: the bytes a lazy writer would leave untouched
+		return []string{"w8:0", "w16:0", "w32:0", "w64:0", "wvu:0", "wvb:-", "wb:0", "w16:256", "w32:1", "wbytes:00"}[r.Intn(10)]
+	}
+	for {
+		w := genWrite(r).w
+		if len(w) < 300 {
+			return w
+		}
+	}
+}
+
+func genSink(r *hx.Rand) string {
+	vis := 0
+	var init string
+	switch r.Intn(6) {
+	case 0:
+		init = "n"
+	case 1:
+		init = "z"
+	default: // caller buffer with spare dirty capacity, sometimes with a visible prefix
+		c := []int{1, 2, 3, 8, 9, 10, 16, 40, 600}[r.Intn(9)]
+		if r.Chance(25) {
+			vis = r.Intn(c + 1)
+		}
+		init = fmt.Sprintf("d:%d:%s", vis, hx.Hex(dirty(r, c)))
+	}
+	boolHeavy := r.Chance(40)
+	var ops []string
+	n := 1 + r.Intn(8)
+	if init == "n" || init == "z" || r.Chance(30) { // dirty it ourselves first: junk, then Reset or BackUp
+		for j := 0; j < 1+r.Intn(4); j++ {
+			var w string
+			switch r.Intn(4) {
+			case 0:
+				w = "w64:18446744073709551615"
+			case 1:
+				w = "wbytes:" + hx.Hex(dirty(r, 1+r.Intn(30)))
+			case 2:
+				w = "wvb:" + hx.Hex(dirty(r, 1+r.Intn(20)))
+			default:
+				w = genSinkWrite(r, false)
+			}
+			ops = append(ops, w)
+			vis += opSize(w)
+		}
+		if r.Bool() {
+			ops = append(ops, "reset")
+			vis = 0
+		} else {
+			k := r.Intn(vis + 1)
+			ops = append(ops, fmt.Sprintf("backup:%d", k))
+			vis -= k
+		}
+	}
+	for j := 0; j < n; j++ {
+		switch {
+		case r.Chance(8):
+			ops = append(ops, "reset")
+			vis = 0
+		case r.Chance(12) && vis > 0:
+			k := 1 + r.Intn(vis)
+			if r.Chance(30) {
+				k = vis
+			}
+			ops = append(ops, fmt.Sprintf("backup:%d", k))
+			vis -= k
+		default:
+			w := genSinkWrite(r, boolHeavy)
+			ops = append(ops, w)
+			vis += opSize(w)
+		}
+	}
+	return "K " + init + " " + strings.Join(ops, ";")
+}
+
 func gen(r *hx.Rand, tier string, i int) string {
+	if r.Chance(25) {
+		return genSink(r)
+	}
 	switch r.Intn(10) {
 	case 0, 1, 2: // write script; Exec also reads it back (round-trip predicate)
 		n := 1 + r.Intn(5)
@@ -271,6 +402,8 @@ func exec(line string) hx.Result {
 		}
 		// io.Writer flavour must produce the same bytes for var-uint / var-bytes
 		return res
+	case "K":
+		return execSink(line, f)
 	case "S":
 		bs := hx.MustUnhex(f[1])
 		rd := bytes.NewReader(bs)
@@ -323,6 +456,100 @@ func exec(line string) hx.Result {
 	return hx.Result{Out: "bad-op"}
 }
 
+func newSink(init string) (*common.ZeroCopySink, bool) {
+	p := strings.Split(init, ":")
+	switch {
+	case init == "n":
+		return common.NewZeroCopySink(nil), true
+	case init == "z":
+		return &common.ZeroCopySink{}, true
+	case len(p) == 3 && p[0] == "d":
+		k, err := strconv.Atoi(p[1])
+		b, err2 := hx.Unhex(p[2])
+		if err != nil || err2 != nil || k > len(b) {
+			return nil, false
+		}
+		b = append([]byte{}, b...) // the line's bytes are the sink's memory
+		return common.NewZeroCopySink(b[:k]), true
+	}
+	return nil, false
+}
+
+func applySinkOp(sink *common.ZeroCopySink, op string) bool {
+	p := strings.SplitN(op, ":", 2)
+	if p[0] == "reset" {
+		sink.Reset()
+		return true
+	}
+	if len(p) != 2 {
+		return false
+	}
+	n, _ := strconv.ParseUint(p[1], 10, 64)
+	switch p[0] {
+	case "w8":
+		sink.WriteUint8(uint8(n))
+	case "w16":
+		sink.WriteUint16(uint16(n))
+	case "w32":
+		sink.WriteUint32(uint32(n))
+	case "w64":
+		sink.WriteUint64(n)
+	case "wb":
+		sink.WriteBool(p[1] == "1")
+	case "wvu":
+		sink.WriteVarUint(n)
+	case "wvb":
+		sink.WriteVarBytes(hx.MustUnhex(p[1]))
+	case "wbytes":
+		sink.WriteBytes(hx.MustUnhex(p[1]))
+	case "backup":
+		if n > sink.Size() {
+			return false // outside the caller contract; never generated
+		}
+		sink.BackUp(n)
+	default:
+		return false
+	}
+	return true
+}
+
+// K line: real sink over the memory the line describes. Predicate (on the implementation alone): the visible bytes after
+// every op are those of the same op applied to a copy of the visible bytes in fresh zeroed memory — the output must not
+// depend on what the memory held before.
+func execSink(line string, f []string) hx.Result {
+	if len(f) != 3 {
+		return hx.Result{Out: "bad-op"}
+	}
+	sink, ok := newSink(f[1])
+	if !ok {
+		return hx.Result{Out: "bad-op"}
+	}
+	expected := append([]byte{}, sink.Bytes()...)
+	kind := "K:" + f[1][:1]
+	res := hx.Result{Kind: kind, Key: line}
+	for _, op := range strings.Split(f[2], ";") {
+		// reference: the bytes visible so far, copied into fresh zeroed memory, then the same op
+		ref := common.NewZeroCopySink(make([]byte, 0, len(expected)+1024))
+		ref.WriteBytes(expected)
+		if !applySinkOp(sink, op) || !applySinkOp(ref, op) {
+			return hx.Result{Out: "bad-op"}
+		}
+		expected = append([]byte{}, ref.Bytes()...)
+		name := strings.SplitN(op, ":", 2)[0]
+		if name == "reset" || name == "backup" {
+			if !strings.Contains(res.Kind, "+"+name) {
+				res.Kind += "+" + name
+			}
+		}
+		if res.Fail == "" && !bytes.Equal(sink.Bytes(), expected) {
+			res.Fail = fmt.Sprintf("after %s the sink shows %s, the same op on fresh memory gives %s", op, hx.Hex(sink.Bytes()), hx.Hex(expected))
+			res.Class = "sink-output-depends-on-stale-memory-" + name
+		}
+	}
+	res.Out = hx.Hex(sink.Bytes())
+	return res
+}
+
 func expected(ws []string) string {
 	var out []string
 	for _, op := range ws {
@@ -348,7 +575,7 @@ func expected(ws []string) string {
 func main() {
 	hx.Main(hx.Prop{
 		ID:   "C18",
-		Rule: "read scripts (12 reader kinds, hostile lengths at uint64 boundaries) over random/valid/truncated byte strings; write scripts read back by the real source; serialization-package read scripts. Non-trivial = distinct op line (every line reaches a reader); kinds histogram shows irregular/eof coverage",
+		Rule: "read scripts (12 reader kinds, hostile lengths at uint64 boundaries) over random/valid/truncated byte strings; write scripts read back by the real source; serialization-package read scripts; K lines (25%): the same writers plus Reset/BackUp on sinks over recycled memory — reused after junk+Reset, after BackUp, NewZeroCopySink(b[:k]) over 0xff / 0x01 / random dirty capacity of 1..600 bytes, zero-value sink; bool-heavy and zero-valued writes. Non-trivial = distinct op line (every line reaches a reader); kinds histogram shows irregular/eof coverage",
 		Gen:  gen,
 		Exec: exec,
 		Corpus: []string{
